@@ -14,13 +14,19 @@
 (*                                by an ACK within the max_ack_delay the   *)
 (*                                connection itself advertised             *)
 (*                                (Ack!OwedIsAcked, bounded)               *)
+(*   SecondPacketNotAcknowledgedAtOnce   once two ack-eliciting 1-RTT      *)
+(*                                packets are unacknowledged the ACK goes  *)
+(*                                out without waiting for the timer        *)
+(*                                (RFC 9000 13.2.2; not judged when the    *)
+(*                                ACK_FREQUENCY extension moves the        *)
+(*                                threshold)                               *)
 (***************************************************************************)
 EXTENDS Naturals, Integers, Sequences, FiniteSets, TLC, Json, IOUtils
 
 Rec == ndJsonDeserialize(IOEnv.TRACE)
 N == Len(Rec)
-VARIABLES l, bad, rcvd, fresh, due, mad, who, late, ackfreq, deviations, cur
-vars == <<l, bad, rcvd, fresh, due, mad, who, late, ackfreq, deviations, cur>>
+VARIABLES l, bad, rcvd, fresh, due, cnt, imm, mad, who, late, ackfreq, deviations, cur
+vars == <<l, bad, rcvd, fresh, due, cnt, imm, mad, who, late, ackfreq, deviations, cur>>
 e == Rec[l]
 Is(k) == l <= N /\ e.ev = k
 Flag(c, name) == IF c THEN {} ELSE {name}
@@ -28,15 +34,16 @@ At(f, a, d) == IF a \in DOMAIN f THEN f[a] ELSE d
 Set(f, a, v) == IF a \in DOMAIN f THEN [f EXCEPT ![a] = v] ELSE f @@ (a :> v)
 Slack == 5000
 
-TInit == /\ l = 1 /\ bad = {} /\ rcvd = <<>> /\ fresh = <<>> /\ due = <<>> /\ mad = <<>> /\ who = <<>>
+TInit == /\ l = 1 /\ bad = {} /\ rcvd = <<>> /\ fresh = <<>> /\ due = <<>> /\ cnt = <<>> /\ imm = <<>> /\ mad = <<>> /\ who = <<>>
          /\ late = 0 /\ ackfreq = FALSE /\ deviations = {} /\ cur = <<0>>
-Reset == /\ Is("Reset") /\ bad' = {} /\ rcvd' = <<>> /\ fresh' = <<>> /\ due' = <<>> /\ mad' = <<>> /\ who' = <<>>
+Reset == /\ Is("Reset") /\ bad' = {} /\ rcvd' = <<>> /\ fresh' = <<>> /\ due' = <<>> /\ cnt' = <<>> /\ imm' = <<>> /\ mad' = <<>> /\ who' = <<>>
          /\ late' = e.late /\ ackfreq' = e.ackfreq /\ deviations' = {} /\ cur' = <<e.run>> /\ l' = l + 1
 
 Mad == /\ Is("Mad") /\ mad' = Set(mad, <<e.n, e.c>>, e.mad) /\ bad' = bad /\ l' = l + 1
-       /\ UNCHANGED <<rcvd, fresh, due, who, late, ackfreq, deviations, cur>>
+       /\ UNCHANGED <<rcvd, fresh, due, cnt, imm, who, late, ackfreq, deviations, cur>>
 Conn == /\ Is("Conn") /\ who' = Set(who, <<e.n, e.c>>, e.uid) /\ bad' = bad /\ l' = l + 1
         /\ due' = Set(due, e.uid, -1) /\ fresh' = Set(fresh, e.uid, {})
+        /\ cnt' = Set(cnt, e.uid, 0) /\ imm' = Set(imm, e.uid, -1)
         /\ UNCHANGED <<rcvd, mad, late, ackfreq, deviations, cur>>
 
 \* an acknowledgement owed since `due` has not been sent although its time is up
@@ -58,6 +65,13 @@ Rcv ==
        \* the clock of the latency clause starts with an ack-eliciting 1-RTT packet that was certainly
        \* processed by an established connection
        /\ due' = IF dataAe /\ e.all /\ e.est /\ e.keys /\ At(due, u, -1) = -1 THEN Set(due, u, e.t) ELSE due
+       \* ack-eliciting 1-RTT packets certainly processed since the last 1-RTT ACK; the second one makes
+       \* the acknowledgement due at once
+       /\ LET k == IF e.all /\ e.est /\ e.keys
+                      THEN At(cnt, u, 0) + Cardinality({i \in 1 .. Len(e.pks) : e.pks[i].ae /\ e.pks[i].sp = 2})
+                      ELSE At(cnt, u, 0)
+          IN /\ cnt' = Set(cnt, u, k)
+             /\ imm' = IF k >= 2 /\ At(imm, u, -1) = -1 THEN Set(imm, u, e.t) ELSE imm
        /\ bad' = bad
   /\ l' = l + 1 /\ UNCHANGED <<mad, who, late, ackfreq, deviations, cur>>
 
@@ -75,6 +89,8 @@ Snd ==
             \cup Flag(e.ackonly => \E i \in 1 .. Len(e.acks) : e.acks[i].sp \in At(fresh, u, {}), "AckOnlyAnsweredByAckOnly")
        /\ fresh' = IF hasAck THEN Set(fresh, u, At(fresh, u, {}) \ {e.acks[i].sp : i \in 1 .. Len(e.acks)}) ELSE fresh
        /\ due' = IF dataAck \/ ~e.est THEN Set(due, u, -1) ELSE due
+       /\ cnt' = IF dataAck \/ ~e.est THEN Set(cnt, u, 0) ELSE cnt
+       /\ imm' = IF dataAck \/ ~e.est THEN Set(imm, u, -1) ELSE imm
   /\ l' = l + 1 /\ UNCHANGED <<rcvd, mad, who, late, ackfreq, deviations, cur>>
 
 \* KNOWN FINDING: poll_transmit decides per packet whether it will be ack-eliciting from what is
@@ -87,10 +103,14 @@ Tick ==
   /\ Is("Tick")
   /\ LET u == At(who, <<e.n, e.c>>, -1)
          overdue == u # -1 /\ e.est /\ Overdue(u, e.t, At(mad, <<e.n, e.c>>, 25000))
+         atOnce == u # -1 /\ e.est /\ ~ackfreq /\ At(imm, u, -1) # -1 /\ e.t > At(imm, u, -1) + late + Slack
      IN
        /\ bad' = bad \cup Flag(~overdue \/ e.cb, "AckWithheld")
-       /\ deviations' = IF overdue /\ e.cb /\ e.val THEN deviations \cup {"AckHeldBackBehindBlockedData"} ELSE deviations
+                      \cup Flag(~atOnce \/ e.cb, "SecondPacketNotAcknowledgedAtOnce")
+       /\ deviations' = IF (overdue \/ atOnce) /\ e.cb /\ e.val THEN deviations \cup {"AckHeldBackBehindBlockedData"} ELSE deviations
        /\ due' = IF u # -1 /\ (~e.est \/ overdue) THEN Set(due, u, -1) ELSE due
+       /\ cnt' = IF u # -1 /\ (~e.est \/ atOnce) THEN Set(cnt, u, 0) ELSE cnt
+       /\ imm' = IF u # -1 /\ (~e.est \/ atOnce) THEN Set(imm, u, -1) ELSE imm
   /\ l' = l + 1 /\ UNCHANGED <<rcvd, fresh, mad, who, late, ackfreq, cur>>
 
 TNext == (Reset \/ Mad \/ Conn \/ Rcv \/ Snd \/ Tick)
